@@ -86,10 +86,19 @@ type c19Agent struct {
 	agent.Agent
 	mu    sync.Mutex
 	added []agent.AddedKey
+	// noLifetimes: an agent that refuses keys with a lifetime constraint (forwarded agents, some platform agents); the
+	// client then adds the key without one
+	noLifetimes      bool
+	lifetimeRefusals int
 }
 
 func (a *c19Agent) Add(k agent.AddedKey) error {
 	a.mu.Lock()
+	if a.noLifetimes && k.LifetimeSecs != 0 {
+		a.lifetimeRefusals++
+		a.mu.Unlock()
+		return fmt.Errorf("agent refused operation")
+	}
 	a.added = append(a.added, k)
 	a.mu.Unlock()
 	return a.Agent.Add(k)
@@ -313,6 +322,7 @@ func TestVerifC19(t *testing.T) {
 	rep.Floor("public_halves_found_on_wire", 20)
 	rep.Floor("private_needles_searched", 50)
 	rep.Floor("agent_runs_checked", 3)
+	rep.Floor("agent_without_lifetimes_two_runs", 1)
 	rep.Floor("agent_certificates_aged_between_runs", 2)
 	rep.Floor("file_modes_checked", 6)
 }
@@ -390,6 +400,19 @@ func c19OneConfig(t *testing.T, rep *verifReport, d *verifDaemon, logger *debugl
 			return
 		}
 		defer l.Close()
+		// every third agent configuration is an agent that refuses lifetime constraints
+		ag.noLifetimes = pref == "p256"
+		defer func() {
+			ag.mu.Lock()
+			n := ag.lifetimeRefusals
+			ag.mu.Unlock()
+			if ag.noLifetimes {
+				rep.Count("agent_lifetime_refusals", n)
+				if n > 0 && iters >= 2 {
+					rep.Count("agent_without_lifetimes_two_runs", 1)
+				}
+			}
+		}()
 		os.Setenv("SSH_AUTH_SOCK", sock)
 	} else {
 		os.Setenv("SSH_AUTH_SOCK", filepath.Join(home, "no-agent-here"))
